@@ -1,5 +1,6 @@
 import PySMT.Proofs.Coincidence
 import PySMT.Impl.Oracles
+import PySMT.Spec.Analyses
 /-!
 # C12, part 1: free symbols, quantifier-freeness, size measures
 
@@ -8,7 +9,7 @@ The oracle models of `Impl/Oracles.lean` (bottom-up per-node functions with the 
 `Term.fv`, `Term.subterms`, `Term.isQF`; `Core/Term.lean`: `Term.size`).
 -/
 namespace PySMT.Oracles
-open PySMT.Gen.Operators
+open PySMT.Gen.Operators PySMT.Analyses
 
 /-! ## the regenerated class tables as predicates -/
 
@@ -177,11 +178,6 @@ theorem symbolsO_eq : (t : Term) → symbolsO t = t.subterms.filter (fun s => s.
     rw [symbolsO_node, subterms_node, ih, List.filter_cons, hself, filter_flatten_map]
     cases h : (op == .symbol) <;> simp
 
-/-- a descending chain of `n` nodes starting at the term -/
-inductive HasPath : Term → Nat → Prop
-  | here (t : Term) : HasPath t 1
-  | step {op args p a n} : a ∈ args → HasPath a n → HasPath (.node op args p) (n + 1)
-
 theorem le_maxList {l : List Nat} {x : Nat} (h : x ∈ l) : x ≤ maxList l := by
   cases l with
   | nil => simp at h
@@ -298,10 +294,6 @@ termination_by l => l.length
 decreasing_by
   simp only [List.length_cons]
   exact Nat.lt_succ_of_le (List.length_filter_le _ _)
-
-/-- `n` is the number of distinct terms with property `P` -/
-def IsCard (P : Term → Prop) (n : Nat) : Prop :=
-  ∃ d : List Term, d.Nodup ∧ (∀ s, s ∈ d ↔ P s) ∧ d.length = n
 
 theorem isCard_eraseDups (l : List Term) (P : Term → Prop) (h : ∀ s, s ∈ l ↔ P s) :
     IsCard P l.eraseDups.length :=
